@@ -225,6 +225,9 @@ Section Stack.
     match value with
     | [] => TOk (inl 1)
     | _ =>
+        match key with
+        | [] => TErr EPanic               (* writeHexKey: dst[2*len(key)-1], index out of range [-1] *)
+        | _ =>
         let k := nibbles_of key in                          (* writeHexKey *)
         if negb (slice_lt (snd s) k) then TOk (inl 2)
         else
@@ -232,6 +235,7 @@ Section Stack.
           | TErr e => TErr e
           | TOk r => TOk (inr (r, k))
           end
+        end
     end.
 
   (* StackTrie.Hash *)
